@@ -341,3 +341,14 @@ def a8_shared(ctx):
 
 
 RULES = [('D2', a8_shared), ('A1', a1_durations), ('A2', a2_dates), ('A3', a3_times), ('A4', a4_numbers), ('A5', a5_money), ('A6', a6_units), ('A7', a7_based)]
+
+
+def a9_lexical(ctx):
+    """A9 printed month names, zones and money codes are read back as such (E7b lexical competition model: month stage, regex families in TOKEN_REGEX_PARSER order with first-claim-wins,
+    alias stage; samples generated from the configuration)"""
+    from ..lexrules import run_samples, number_samples, based_samples, money_samples, unit_samples, month_samples, zone_samples, duration_samples, percent_samples, keyword_samples
+    ctx.rule('A9', 'printed month names, zones and money codes are read back as such', floor=200)
+    run_samples(ctx, 'A9', month_samples(ctx) + zone_samples(ctx))
+
+
+RULES.append(('A9', a9_lexical))
